@@ -31,7 +31,7 @@ Lemma gen_sound_run ops : forall obs pts g em,
   gen_corr g ops obs = true -> gen_prop pts em ops obs = true.
 Proof.
   induction ops as [|op ops IH]; intros [|o obs] pts g em HI Hem Hc; cbn [gen_corr gen_prop] in *;
-    try discriminate; [reflexivity|]; destruct op as [t v|].
+    try discriminate; [reflexivity|]; destruct op as [t v| |c]; cbn [negb andb] in Hc.
   - destruct (Inv_step pts g (t, qc v) HI) as [HI' Hcomp].
     destruct (gen_update g (t, qc v)) as [g' ret] eqn:Hu. cbn [fst snd] in *.
     apply andb_true_iff in Hc as [Hm Hc]. unfold gobs_matches in Hm.
@@ -44,6 +44,10 @@ Proof.
     apply andb_true_iff in Hm as [Hm Hgen]. apply andb_true_iff in Hm as [Hret _].
     rewrite (Inv_generate _ _ HI) in Hgen, Hret. rewrite Hgen, Hret. cbn [andb].
     apply (IH obs pts g); assumption.
+  - apply andb_true_iff in Hc as [Hm Hc]. apply andb_true_iff in Hm as [_ Hm].
+    unfold gobs_matches in Hm. apply andb_true_iff in Hm as [_ Hgen].
+    rewrite (Inv_generate _ _ HI) in Hgen. rewrite Hgen. cbn [andb].
+    apply (IH obs pts g); assumption.
 Qed.
 
 Lemma gen_sound_default ops : forall obs,
@@ -51,7 +55,7 @@ Lemma gen_sound_default ops : forall obs,
   gen_corr gen_default ops obs = true -> gen_prop [] [] ops obs = true.
 Proof.
   induction ops as [|op ops IH]; intros [|o obs] Hp Hc; cbn [gen_corr gen_prop] in *;
-    try discriminate; [reflexivity|]. destruct op as [t v|].
+    try discriminate; [reflexivity|]. destruct op as [t v| |c]; cbn [negb andb] in Hc.
   - cbn [first_gen_value filter positive] in Hp. apply positive_qc in Hp.
     assert (HI : Inv [(t, qc v)] (gen_init (t, qc v))) by (apply Inv_init; exact Hp).
     change (gen_update gen_default (t, qc v)) with (gen_init (t, qc v), @None drawdown) in Hc.
@@ -66,6 +70,12 @@ Proof.
     apply andb_true_iff in Hm as [Hm Hgen]. apply andb_true_iff in Hm as [Hret _].
     change (gen_generate gen_default) with (@None drawdown) in *.
     change (current []) with (@None drawdown). rewrite Hret, Hgen. cbn [andb].
+    apply IH; assumption.
+  - cbn [first_gen_value filter] in Hp.
+    apply andb_true_iff in Hc as [Hm Hc]. apply andb_true_iff in Hm as [_ Hm].
+    unfold gobs_matches in Hm. apply andb_true_iff in Hm as [_ Hgen].
+    change (gen_generate gen_default) with (@None drawdown) in *.
+    change (current []) with (@None drawdown). rewrite Hgen. cbn [andb].
     apply IH; assumption.
 Qed.
 
@@ -139,7 +149,7 @@ Lemma asset_sound ops : forall obs a x rest, (0 < snd x)%Qc ->
   asset_corr a ops obs = true -> asset_prop (x :: rest) ops obs = true.
 Proof.
   induction ops as [|op ops IH]; intros [|[orep st] obs] a x rest Hx Ha H;
-    cbn [asset_corr asset_prop] in *; try discriminate; [reflexivity| |]; destruct op as [t tot fr|];
+    cbn [asset_corr asset_prop] in *; try discriminate; [reflexivity| |]; destruct op as [t tot fr| |c];
     cbn [asset_corr asset_prop] in *; try discriminate.
   - destruct orep as [[bal rep]|]; [discriminate|].
     apply andb_true_iff in H as [_ H]. rewrite <- app_comm_cons.
@@ -152,6 +162,8 @@ Proof.
     apply andb_true_iff in H as [H H4]. apply andb_true_iff in H as [H H3]. apply andb_true_iff in H as [_ H2].
     rewrite (sheet_sound x rest rep Hx H2). cbn [andb].
     apply (IH obs (mkATS (a_balance a) (fold_left ts_update rest (ts_init x)))); [exact Hx|reflexivity|exact H4].
+  - destruct orep as [[bal rep]|]; [discriminate|].
+    apply andb_true_iff in H as [_ H3]. apply (IH obs a x rest); [exact Hx|exact Ha|exact H3].
 Qed.
 
 Lemma inst_sound_run ops : forall obs s x rest, (0 < snd x)%Qc ->
@@ -159,7 +171,7 @@ Lemma inst_sound_run ops : forall obs s x rest, (0 < snd x)%Qc ->
   inst_corr s ops obs = true -> inst_prop (i_pnl s) (x :: rest) ops obs = true.
 Proof.
   induction ops as [|op ops IH]; intros [|[orep st] obs] s x rest Hx Hs H;
-    cbn [inst_corr inst_prop] in *; try discriminate; [reflexivity| |]; destruct op as [t pnl|];
+    cbn [inst_corr inst_prop] in *; try discriminate; [reflexivity| |]; destruct op as [t pnl| |c];
     cbn [inst_corr inst_prop] in *; try discriminate.
   - destruct orep as [[p rep]|]; [discriminate|].
     apply andb_true_iff in H as [_ H]. rewrite <- app_comm_cons.
@@ -173,6 +185,8 @@ Proof.
     rewrite (sheet_sound x rest rep Hx H2). cbn [andb].
     apply (IH obs (mkITS (i_now s) (i_pnl s) (fold_left ts_update rest (ts_init x))) x rest);
       [exact Hx|reflexivity|exact H4].
+  - destruct orep as [[p rep]|]; [discriminate|].
+    apply andb_true_iff in H as [_ H3]. apply (IH obs s x rest); [exact Hx|exact Hs|exact H3].
 Qed.
 
 Lemma inst_sound_default ops : forall obs s,
@@ -180,7 +194,7 @@ Lemma inst_sound_default ops : forall obs s,
   inst_corr s ops obs = true -> inst_prop 0%Qc [] ops obs = true.
 Proof.
   induction ops as [|op ops IH]; intros [|[orep st] obs] s Hp Hs Hraw H;
-    cbn [inst_corr inst_prop] in *; try discriminate; [reflexivity| |]; destruct op as [t pnl|];
+    cbn [inst_corr inst_prop] in *; try discriminate; [reflexivity| |]; destruct op as [t pnl| |c];
     cbn [inst_corr inst_prop] in *; try discriminate.
   - destruct orep as [[p rep]|]; [discriminate|].
     cbn [first_inst_value filter positive] in Hp. apply positive_qc in Hp.
@@ -200,6 +214,9 @@ Proof.
     apply andb_true_iff in H as [H H4]. apply andb_true_iff in H as [H H3]. apply andb_true_iff in H as [_ H2].
     rewrite (sheet_sound_empty rep H2). cbn [andb].
     apply (IH obs (mkITS (i_now s) (i_pnl s) ts_default)); [exact Hp|reflexivity|exact Hraw|exact H4].
+  - destruct orep as [[p rep]|]; [discriminate|].
+    cbn [first_inst_value filter] in Hp.
+    apply andb_true_iff in H as [_ H3]. apply (IH obs s); [exact Hp|exact Hs|exact Hraw|exact H3].
 Qed.
 
 Lemma sum_inst_sound t0 ops obs0 obs i :
@@ -225,7 +242,7 @@ Qed.
 
 Theorem oracle_sound c : in_scope c = true -> corr_b c = true -> prop_b c = true.
 Proof.
-  destruct c as [start ops obs0 obs|init ds obs0 obs|init ds obs0 obs|[[t tot] fr] ops obs0 obs|t0 ops obs0 obs|t0 n starts ops obs0 obs|sc w];
+  destruct c as [start ops obs0 obs|init ds rts chg obs0 obs|init ds rts chg obs0 obs|[[t tot] fr] ops obs0 obs|t0 ops obs0 obs|t0 n starts ops obs0 obs|sc w];
     cbn [in_scope corr_b prop_b]; intros Hs Hc.
   - apply andb_true_iff in Hc as [H0 Hc]. unfold gobs_matches in H0.
     apply andb_true_iff in H0 as [H0 Hg0]. apply andb_true_iff in H0 as [Hr0 _].
@@ -238,10 +255,12 @@ Proof.
       change (current []) with (@None drawdown). rewrite Hr0, Hg0. cbn [andb].
       apply gen_sound_default; assumption.
   - apply andb_true_iff in Hc as [H0 Hc]. apply andb_true_iff in H0 as [H1 H2].
+    apply andb_true_iff in H1 as [_ H1].
     assert (E : max_start init = max_run None (start_list init)) by (destruct init; reflexivity).
     rewrite E in *. unfold max_ok. rewrite (max_sound _ _ _ H1), (max_sound _ _ _ H2). cbn [andb].
     apply max_corr_sound. exact Hc.
   - apply andb_true_iff in Hc as [H0 Hc]. apply andb_true_iff in H0 as [H1 H2].
+    apply andb_true_iff in H1 as [_ H1].
     assert (E : mean_start init = mean_run mean_default (start_list init)) by (destruct init; reflexivity).
     rewrite E in *. unfold meanstate_close in H1. apply andb_true_iff in H1 as [_ H1].
     rewrite (mean_sound _ _ H1), (mean_sound _ _ H2). cbn [andb].
